@@ -60,6 +60,14 @@ func runReplicas(rc *RCase, present []bool) (obs [][]CObs, explChanged string) {
 	before := snapExplore(explore)
 	active := coordActive(&rc.Base)
 	obs = make([][]CObs, len(rc.Reps))
+	// one long-lived coordinator for all cycles of a case (a cycle has to be a function of what the
+	// replicas' shards report in it, also per replica); the managers of a cycle are swapped in
+	rep := &coordRep{}
+	co := coordinator.NewCoordinator(coordOption(&rc.Base), rep,
+		func() *prom.ConfigInfo { return cfg },
+		func(h uint64) *target.ScrapeStatus { return explore[h] },
+		func() map[uint64]*discovery.SDTargets { return active },
+		prometheus.NewRegistry(), lg)
 	for cyc := 0; cyc < rc.Cycles; cyc++ {
 		var mgrs []shard.Manager
 		cur := make([]*CObs, len(rc.Reps))
@@ -80,14 +88,7 @@ func runReplicas(rc *RCase, present []bool) (obs [][]CObs, explChanged string) {
 			cc := c
 			mgrs = append(mgrs, &coordMgr{c: &cc, obs: o, cfgHash: cfg.ConfigHash})
 		}
-		if cyc == 0 {
-			// one coordinator for all cycles
-		}
-		co := coordinator.NewCoordinator(coordOption(&rc.Base), &coordRep{ms: mgrs},
-			func() *prom.ConfigInfo { return cfg },
-			func(h uint64) *target.ScrapeStatus { return explore[h] },
-			func() map[uint64]*discovery.SDTargets { return active },
-			prometheus.NewRegistry(), lg)
+		rep.ms = mgrs
 		func() {
 			defer func() {
 				if r := recover(); r != nil {
@@ -138,7 +139,7 @@ func genReplicaCase(r *Rng) *RCase {
 
 func runReplicasEngine(a Args) *Result {
 	res := newResult("replicas", a.seed, a.tier)
-	res.Rule = "2-3 replicas sharing options, discovered set and explorer (one failing to list its shards, failing to scale, entirely unready, or holding a different placement of the same targets), 1-2 cycles of the real runOnce; each replica's observed requests and scale calls are matched against Coord.cycle of that replica alone, and explorer status objects are compared before/after; non-trivial = the matched cycle did some work (assign, relief, gc, scale change)"
+	res.Rule = "2-3 replicas sharing options, discovered set and explorer (one failing to list its shards, failing to scale, entirely unready, or holding a different placement of the same targets), 1-2 cycles of the real runOnce on one long-lived Coordinator; each replica's observed requests and scale calls are matched against Coord.cycle of that replica alone, and explorer status objects are compared before/after; non-trivial = the matched cycle did some work (assign, relief, gc, scale change)"
 	rng := NewRng(a.seed)
 	n := 500
 	if a.tier == "thorough" {
